@@ -62,7 +62,8 @@ class Statistics:
         if self.weight > 0:
             # Not `sum**2`: after a scaling (units) the square may leave the float range
             mean = self.sum / self.weight
-            return self.sum2 / self.weight - mean * mean
+            # (Rounding may leave a tiny negative number for equal values; NaN stays NaN)
+            return max(self.sum2 / self.weight - mean * mean, 0.0)
         return np.nan
 
     def __add__(self, other: Any) -> Statistics:
